@@ -130,7 +130,7 @@ def main():
     n_cmp += vst.get('evals', 0)
     rep.cov.update({'view_evaluations_under_macro_configurations': vst.get('evals', 0), 'evaluations': n_cmp, 'distinct_nontrivial': len(jobs),
                     'rule': 'corpus = sampled check programs of C01 (matmul), C17 (tmatmul), C02 (expressions), C16 (reductions), C14 (permute/transpose), C15 (3-operand einsum), C09 (lazy linear algebra); each compiled under the baseline %s and under %d other configurations: the six-ISA covering array (C++14/17, -O0/-O2/-O3), FASTOR_DONT_VECTORISE, FASTOR_USE_HADD, FASTOR_MATMUL_OUTER/INNER_BLOCK_SIZE, FASTOR_TRANS_OUTER/INNER_BLOCK_SIZE, FASTOR_DONT_PERFORM_OP_MIN, FASTOR_USE_VECTORISED_EXPR_ASSIGN, assertions on (-UNDEBUG), FASTOR_ENABLE_RUNTIME_CHECKS; plus the dynamic-view harness of C04/C05/C18 (reads, writes with all operators, overlapping assignments) under FASTOR_USE_VECTORISED_EXPR_ASSIGN on four ISAs (scalar included), compared with the view model; every output line compared with the baseline (integer-valued results identical, others within 2e-5 relative); the compiler verdict per (program, configuration)' % (BASE.name, len(vs)),
-                    'configurations': [c.name for c, _ in vs], 'programs': [n for n, _, _ in progs], 'compiler_acceptance': accept, 'output_lines_compared_per_configuration': per, 'traces_validated_against_impl': n_cmp})
+                    'configurations': [c.name for c, _ in vs], 'programs': len(progs), 'program_names': [n for n, _, _ in progs], 'compiler_acceptance': accept, 'output_lines_compared_per_configuration': per, 'traces_validated_against_impl': n_cmp})
     rep.assumptions = ['floating-point results are compared with a relative tolerance of 2e-5 (the corpus data is integer-valued, so most results are exact)', 'compiler acceptance is observed, not proved']
     return rep.finish(proof=proof, trusted=['Coq 8.16.1 kernel (coqc)', 'lib/common.py, props/c06.py and the generators of c01, c02, c09, c14, c15, c16, c17', 'g++ 12 (and clang++ 14 in the thorough tier)'])
 
